@@ -475,6 +475,12 @@ func ownClosedObserved(p *Prog, r *Report, R string) {
 					if st.Dir == types.RecvOnly && strings.HasPrefix(d, "recv.") && strings.Contains(d, "closeq") && strings.Count(d, ".") == 1 {
 						observed = true
 					}
+					// (through a local, a parameter or a snapshot helper: by field)
+					if fa := chanField(st.Chan); fa != nil && st.Dir == types.RecvOnly {
+						if k := fieldKeyOf(fa); strings.HasPrefix(k, rel+"."+rt+".") && strings.Contains(strings.ToLower(k[len(rel)+len(rt)+2:]), "closeq") {
+							observed = true
+						}
+					}
 				}
 			}
 		}
